@@ -2,6 +2,7 @@
     the model of Crolt.v, for ALL operation sequences
     ([brun ops (crolt_init parts)] is [fold_left bstep ops ...]); proofs are in
     CroltProofs.v. *)
+From Coq Require Export Sorting.Sorted.
 From Verif Require Import Json Outcome Crolt.
 
 (** The job table and the time index agree: every job is indexed under its
@@ -15,20 +16,22 @@ Definition buckets_consistent (c : crolt) : Prop :=
   (forall t j, tlookup t (c_time c) = Some j ->
      b_tid j = Some t /\ snd t = aid_of j /\ alookup (aid_of j) (c_jobs c) = Some j).
 
-(** Requests that do not carry a TId of their own (the field is meant to be
-    written by the service; AddHandler nevertheless accepts it from the
-    client: see client_tid_breaks_consistency_counterexample). *)
-Definition clean_op (o : bop) : Prop :=
-  match o with BAdd j _ => b_tid j = None | _ => True end.
-
 (** Consistency holds after every operation of every history, a restart
-    (BReopen) included. *)
+    (BReopen) included, whatever the requests carry (D40 repaired: the TId of
+    a request is ignored). *)
 Definition buckets_consistent_statement : Prop :=
-  forall ops parts, Forall clean_op ops -> buckets_consistent (brun ops (crolt_init parts)).
+  forall ops parts, buckets_consistent (brun ops (crolt_init parts)).
 
 (** ... and is an invariant of each single operation from ANY consistent state. *)
 Definition buckets_consistent_step_statement : Prop :=
-  forall c o, buckets_consistent c -> clean_op o -> buckets_consistent (bstep c o).
+  forall c o, buckets_consistent c -> buckets_consistent (bstep c o).
+
+(** The TId a request carries has no effect at all. *)
+Definition with_tid (j : bjob) (t : option tkey) : bjob :=
+  mkB (b_account j) (b_id j) (b_kind j) (b_once j) (b_evict j) t.
+
+Definition client_tid_ignored_statement : Prop :=
+  forall c j t at_, c_add c (with_tid j t) at_ = c_add c (with_tid j None) at_.
 
 (** At most one pending entry per job id. *)
 Definition one_time_entry_per_job_statement : Prop :=
@@ -49,11 +52,34 @@ Definition work_fires_stored_entries_statement : Prop :=
     exists j, In (fd_key f, j) (c_time c) /\ aid_of j = fd_aid f /\ b_evict j = false /\
               b_once j = fd_once f /\ partition (b_account j) (c_parts c) = part.
 
-(** work fires only entries whose key is <= the rendering of now; for the
-    instants this means: not before the second in which the job is due ... *)
+(** work fires only entries whose key is <= the rendering of now; with the
+    fixed-width keys (D39 repaired) this means exactly: the instant of the
+    entry is earlier than now. *)
 Definition work_fires_due_only_statement : Prop :=
   forall c part now ats f, In f (snd (fst (c_work c part now ats))) ->
-    key_due (fd_key f) now = true /\ fst (fd_key f) / sec <= now / sec.
+    key_due (fd_key f) now = true /\ fst (fd_key f) < now.
+
+Definition key_due_iff_statement : Prop :=
+  forall k now, key_due k now = true <-> fst k < now.
+
+(** The order of the keys is the order of the instants (then of the ids). *)
+Definition key_order_is_time_order_statement : Prop :=
+  forall a b, (fst a < fst b -> tkey_cmp a b = Lt) /\ (tkey_cmp a b = Lt -> fst a <= fst b).
+
+(** In every reachable state the time bucket is in the order of the instants:
+    work meets the entries earliest first. *)
+Definition by_instant (x y : tkey * bjob) : Prop := fst (fst x) <= fst (fst y).
+
+Definition time_bucket_in_time_order_statement : Prop :=
+  forall ops parts, StronglySorted by_instant (c_time (brun ops (crolt_init parts))).
+
+(** Hence a due entry is never passed over: if an entry of the partition is
+    due, the first entry work looks at is due (the due snapshot is not empty). *)
+Definition due_entry_is_served_statement : Prop :=
+  forall ops parts part now k j,
+    let c := brun ops (crolt_init parts) in
+    In (k, j) (c_time c) -> partition (b_account j) (c_parts c) = part -> key_due k now = true ->
+    due_snapshot c part now <> [].
 
 (** A one-shot entry that fires becomes an evict entry under a new key in both
     buckets; its old key is gone. *)
@@ -77,6 +103,6 @@ Definition is_once_fire (aid : string) (f : fired) : bool :=
   String.eqb (fd_aid f) aid && fd_once f.
 
 Definition crolt_oneshot_fires_at_most_once_statement : Prop :=
-  forall ops parts aid, Forall clean_op ops ->
+  forall ops parts aid,
     (length (filter (is_once_fire aid) (brun_fires ops (crolt_init parts) []))
      <= length (filter (is_badd aid) ops))%nat.
